@@ -20,6 +20,9 @@ import (
 //                  (package directory, enclosing function, M) — name based: the receiver's type is not resolved, so a
 //                  method of the same name on a non-value (a loader's Resolve) is listed too
 //
+//   aliasAccessors every exported method of a value struct with `return recv.f` for a slice / map field f: the accessor
+//                  hands out internal storage, a caller can write into the value through it
+//
 // The reviewed white list lives in hand-written Lean (`MutatorCallsSafe`: inclusion).
 
 func init() { register("mutatorcalls", "MutatorCalls", genMutatorCalls) }
@@ -32,7 +35,7 @@ func exported(name string) bool {
 }
 
 func genMutatorCalls() string {
-	rows, _ := fwAnalyse("types", "")
+	rows, valueNames := fwAnalyse("types", "")
 	// methods (Type.method) that assign their receiver's fields
 	mut := map[string]bool{}
 	for _, r := range rows {
@@ -172,6 +175,78 @@ func genMutatorCalls() string {
 		}
 		return a.m < b.m
 	})
+	// accessors that hand out internal storage: an exported method of a value struct returning a slice / map field of
+	// its receiver as it is (`return dt.params`): whoever calls it can write into the value
+	isValue := map[string]bool{}
+	for _, v := range valueNames {
+		isValue[v] = true
+	}
+	fieldKind := map[string]map[string]bool{} // struct -> field -> is slice or map
+	var parsedTypes []*ast.File
+	for _, abs := range files {
+		if strings.HasSuffix(abs, "_test.go") {
+			continue
+		}
+		rel, _ := filepath.Rel(*repo, abs)
+		f := parseFile(rel)
+		parsedTypes = append(parsedTypes, f)
+		ast.Inspect(f, func(n ast.Node) bool {
+			ts, ok := n.(*ast.TypeSpec)
+			if !ok {
+				return true
+			}
+			st, ok := ts.Type.(*ast.StructType)
+			if !ok {
+				return true
+			}
+			m := map[string]bool{}
+			for _, fl := range st.Fields.List {
+				_, isSlice := fl.Type.(*ast.ArrayType)
+				_, isMap := fl.Type.(*ast.MapType)
+				for _, nm := range fl.Names {
+					m[nm.Name] = isSlice || isMap
+				}
+			}
+			fieldKind[ts.Name.Name] = m
+			return false
+		})
+	}
+	type arow struct{ fn, field string }
+	aseen := map[arow]bool{}
+	for _, f := range parsedTypes {
+		for _, d := range f.Decls {
+			fd, ok := d.(*ast.FuncDecl)
+			if !ok || fd.Body == nil || fd.Recv == nil || !exported(fd.Name.Name) {
+				continue
+			}
+			t := recvTypeName(fd)
+			recv := recvVarName(fd)
+			if !isValue[t] || recv == "" {
+				continue
+			}
+			ast.Inspect(fd.Body, func(n ast.Node) bool {
+				if _, ok := n.(*ast.FuncLit); ok {
+					return false
+				}
+				if rs, ok := n.(*ast.ReturnStmt); ok {
+					for _, r := range rs.Results {
+						if se, ok := r.(*ast.SelectorExpr); ok {
+							if id, ok := se.X.(*ast.Ident); ok && id.Name == recv && fieldKind[t][se.Sel.Name] {
+								aseen[arow{funcKey(fd), se.Sel.Name}] = true
+							}
+						}
+					}
+				}
+				return true
+			})
+		}
+	}
+	var al []string
+	for a := range aseen {
+		al = append(al, fmt.Sprintf("(%s, %s)", leanStr(a.fn), leanStr(a.field)))
+	}
+	sort.Strings(al)
+
 	var b strings.Builder
 	b.WriteString(header("mutatorcalls", "types/*.go (the mutators), every other package (the calls)"))
 	b.WriteString("namespace Pcore.Generated\n\n")
@@ -185,6 +260,7 @@ func genMutatorCalls() string {
 		rl = append(rl, fmt.Sprintf("  (%s, %s, %s)", leanStr(c.pkg), leanStr(c.fn), leanStr(c.m)))
 	}
 	fmt.Fprintf(&b, "/-- calls of a method of one of those names outside package types: (package, function, method) -/\ndef mutatorCalls : List (String × String × String) := [\n%s]\n", strings.Join(rl, ",\n"))
+	fmt.Fprintf(&b, "\n/-- exported methods of value structs that return a slice / map field of the receiver as it is: (method, field) -/\ndef aliasAccessors : List (String × String) := [\n  %s]\n", strings.Join(al, ",\n  "))
 	b.WriteString("\nend Pcore.Generated\n")
 	return b.String()
 }
